@@ -179,6 +179,96 @@ def whole_programs():
     return W
 
 
+# ---------------------------------------------------------------------------------------------------------------
+# exhaustive streams driven by pyteal's own public surface
+# ---------------------------------------------------------------------------------------------------------------
+import inspect
+import itertools
+
+NAMESPACES = ("App", "AssetHolding", "AssetParam", "AppParam", "AccountParam", "JsonRef", "Base64Decode", "Block")
+CLASS_ALLOW = ("Assert", "Return")      # classes whose constructor takes operand expressions; other classes take enums / slots
+
+
+def operator_constructors(pt):
+    """every public constructor that builds an expression from operand expressions: the functions of pyteal.__all__
+    (Add, Btoi, GetByte, Substring, SetBit, Divw, Ed25519Verify, ...), a few classes, and the static methods of the
+    namespace classes (App.globalPut, AssetParam.total, JsonRef.as_string, ...); sorted, so the stream is deterministic"""
+    out = []
+    for name in sorted(pt.__all__):
+        f = getattr(pt, name)
+        if inspect.isfunction(f) or name in CLASS_ALLOW:
+            out.append((name, f))
+    for ns in NAMESPACES:
+        c = getattr(pt, ns, None)
+        if c is None:
+            continue
+        for m in sorted(dir(c)):
+            f = getattr(c, m)
+            if not m.startswith("_") and callable(f) and not isinstance(f, type) and m not in ("And", "Or"):
+                out.append((ns + "." + m, f))
+    return out
+
+
+def resolve(pt, name):
+    f = pt
+    for part in name.split("."):
+        f = getattr(f, part)
+    return f
+
+
+def build_op_program(pt, name, combo):
+    """constructor `name` applied to operands of the concrete types in `combo` ('u' / 'b'), as a whole program"""
+    args = [pt.Txn.fee() if k == "u" else pt.Txn.sender() for k in combo]
+    e = resolve(pt, name)(*args)
+    if not isinstance(e, pt.Expr):
+        raise pt.TealInputError("not an expression")
+    if e.has_return():
+        return e
+    return pt.Seq(e if e.type_of() == pt.TealType.none else pt.Pop(e), pt.Approve())
+
+
+def arm(pt, k):
+    return {"n": pt.Pop(pt.Int(1)), "u": pt.Txn.fee() + pt.Int(0), "b": pt.Txn.sender(), "a": pt.App.globalGet(pt.Bytes("k1"))}[k]
+
+
+def build_chain_program(pt, shape, types):
+    """an If/ElseIf/Else chain or a Cond whose arms have the given types; arm i is taken when Txn.fee() == i (the last
+    arm otherwise); the value is used according to the type PyTeal assigns to the whole expression"""
+    k = len(types)
+    cond = lambda i: pt.Txn.fee() == pt.Int(i)
+    if shape == "elseif":
+        e = pt.If(cond(0)).Then(arm(pt, types[0]))
+        for i in range(1, k - 1):
+            e = e.ElseIf(cond(i)).Then(arm(pt, types[i]))
+        e = e.Else(arm(pt, types[k - 1]))
+    elif shape == "elseif-open":       # no final Else
+        e = pt.If(cond(0)).Then(arm(pt, types[0]))
+        for i in range(1, k):
+            e = e.ElseIf(cond(i)).Then(arm(pt, types[i]))
+    else:
+        e = pt.Cond(*[[cond(i) if i < k - 1 else pt.Int(1), arm(pt, types[i])] for i in range(k)])
+    t = e.type_of()
+    if t == pt.TealType.none:
+        use = e
+    elif t == pt.TealType.uint64:
+        use = pt.Pop(e + pt.Int(1))
+    elif t == pt.TealType.bytes:
+        use = pt.Pop(pt.Len(e))
+    else:
+        use = pt.Pop(e)
+    return pt.Seq(use, pt.Approve()), t
+
+
+def chain_specs():
+    for shape in ("elseif", "cond"):
+        for k in (2, 3, 4):
+            for types in itertools.product("nuba", repeat=k):
+                yield shape, "".join(types)
+    for k in (1, 2, 3):
+        for types in itertools.product("nuba", repeat=k):
+            yield "elseif-open", "".join(types)
+
+
 SIGS = {"ds": None}     # filled per case from the emitted text: arity by the program family
 
 
@@ -196,9 +286,34 @@ class IllCase:
         opt = None if (ss_ is None and self.fp is None) else pt.OptimizeOptions(scratch_slots=ss_, frame_pointers=self.fp)
 
         def go():
-            e = whole_programs()[self.dname][0](pt) if self.whole else build_stmt_program(pt, self.dname, self.ctx, self.flavour)
+            if self.dname.startswith("op:"):
+                _, name, combo = self.dname.split(":")
+                e = build_op_program(pt, name, combo)
+            elif self.dname.startswith("chain:"):
+                _, shape, types = self.dname.split(":")
+                e, t = build_chain_program(pt, shape, types)
+                self.chain_type = getattr(t, "name", "?")
+            else:
+                e = whole_programs()[self.dname][0](pt) if self.whole else build_stmt_program(pt, self.dname, self.ctx, self.flavour)
             return pt.compileTeal(e, pt.Mode.Application, version=self.version, optimize=opt)
         return call_real(go)
+
+    def contexts(self, rng):
+        """chains: one context per arm (Txn.fee() selects the arm); the global the anytype arm reads holds a value of the
+        type PyTeal gave the whole expression, so that an anytype arm never fails by itself.  Others: random contexts."""
+        from gen_prog import gen_context
+        if not self.dname.startswith("chain:"):
+            return [gen_context(rng, True) for _ in range(2)]
+        k = len(self.dname.split(":")[2])
+        kv = (b"k1", b"sixteen bytes...") if getattr(self, "chain_type", "") == "bytes" else (b"k1", 7)
+        out = []
+        for fee in range(k + 1):
+            out.append((S("ctx"), (S("mode"), S("app")), (S("gi"), 0), (S("app-id"), 77),
+                        (S("group"), ((S("fields"), ("Fee", fee), ("Sender", bytes(32)), ("NumAppArgs", 0), ("ApplicationID", 77),
+                                       ("OnCompletion", 0), ("TypeEnum", 6), ("GroupIndex", 0)), (S("arrays"), ("ApplicationArgs", ())))),
+                        (S("globals"), ("MinTxnFee", 1000), ("GroupSize", 1), ("ZeroAddress", bytes(32))),
+                        (S("gstate"), kv), (S("fuel"), 4000)))
+        return out
 
     def declare(self, teal):
         """`ds_k`: the one subroutine of these programs; arity and result from its declaration in this module"""
@@ -229,6 +344,17 @@ class IllCase:
                 "recipe": repr(self.recipe), "subdefs": "[]", "version": self.version, "mode": "app", "scratch_slots": None,
                 "frame_pointers": self.fp, "teal": self.real[1].split("\n") if self.real and self.real[0] == "ok" else repr(self.real),
                 "decl": self.decl}
+
+
+def exhaustive_cases(pt):
+    """every public operator constructor x every arity 1..4 x every assignment of concrete operand types; every
+    If/ElseIf/Else chain, open ElseIf chain and Cond with 2..4 (1..3) arms x every assignment of arm types"""
+    for name, _ in operator_constructors(pt):
+        for n in (1, 2, 3, 4):
+            for combo in itertools.product("ub", repeat=n):
+                yield IllCase("op:%s:%s" % (name, "".join(combo)), "main", 10, None, whole=True)
+    for shape, types in chain_specs():
+        yield IllCase("chain:%s:%s" % (shape, types), "main", 6, None, whole=True)
 
 
 def all_cases():
